@@ -61,8 +61,9 @@ ENTRY = {
         "level_note": "Trusted: Lean kernel; axioms propext/Classical.choice/Quot.sound; the hand-written models of the matcher and the operator and the plan exporter/decoder (validated by the "
                       "correspondence runs only); exact-vs-float order of the distance kernels (sampled on integer-valued vectors, not proved); the reference semantics; harness generators and mocks. "
                       "Finding C43-F1 (a C03 defect found by this family: PredicatePushdown pushed a filter through LIMIT) is fixed in /repo by 858a9cb, its witness is replayed from the corpus. "
-                      "Known finding C43-F2 (mode Indexed only: shape_output looks provider columns up by the query's output names — aliases fail or swap columns) is attributed only when the "
-                      "production answer equals the model with exactly that lookup; mode Indexed with an index is otherwise judged for row integrity and OFFSET/LIMIT mechanics, not for nearness.",
+                      "Finding C43-F2 (mode Indexed only: shape_output looked provider columns up by the query's output names — aliases failed or swapped columns) is fixed in /repo by 162db10 "
+                      "(witness in the corpus; the driver still recognises exactly that lookup as deviation matchByOutputName should it return); mode Indexed with an index is judged for row "
+                      "integrity and OFFSET/LIMIT mechanics, not for nearness.",
         "technique": "Lean 4 proof over executable models + plan-export correspondence + differential execution with the rule removed + exact-arithmetic SQL oracle",
     },
 }
